@@ -622,7 +622,10 @@ func (l *lemmas) discharge(s panicSite, nilFields map[string]bool) (ok bool, tri
 			r := l.chanRemade(f)
 			return r.ok, false, r.why
 		}
-		return false, false, "close of a channel that is not a re-made field"
+		if ok, why := closeLocalOnce(p, s); ok {
+			return true, false, why
+		}
+		return false, false, "close of a channel that is not a re-made field (nor a local channel closed exactly once)"
 	case "nilmap":
 		if f, _, isL := loadedField(s.subject); isL {
 			r := l.mapMade(f)
@@ -984,6 +987,73 @@ func ensuredSection(fn *ssa.Function, r *ssa.Call, at ssa.Instruction) (bool, st
 		if stored {
 			return true, fmt.Sprintf("the section was ensured present: a dominating test %s(…) == nil stores a fresh object into the field before this use", c.Static.Name())
 		}
+	}
+	return false, ""
+}
+
+// closeLocalOnce: close(x) where x is a local channel that is always freshly made (never nil), closed nowhere else,
+// and this close runs at most once: it is not in a loop, or it is a deferred close registered in a block that can run
+// only once (the block is entered only while the local is still nil and makes it non-nil).
+func closeLocalOnce(p *Prog, s panicSite) (bool, string) {
+	f := s.fn
+	u, ok := stripConv(s.subject).(*ssa.UnOp)
+	var cell *ssa.Alloc
+	if ok {
+		cell, _ = u.X.(*ssa.Alloc)
+	}
+	if cell == nil {
+		if _, isMk := stripConv(s.subject).(*ssa.MakeChan); isMk && !inLoop(s.in) {
+			return true, "close of a channel made in this call, outside any loop"
+		}
+		return false, ""
+	}
+	for _, o := range origins(s.subject) {
+		if _, isMk := o.Val.(*ssa.MakeChan); !isMk {
+			return false, ""
+		}
+	}
+	// no other close of this cell's channel in the function or the closures that capture it
+	closes := 0
+	fns := []*ssa.Function{f}
+	fns = append(fns, f.AnonFuncs...)
+	for _, g := range fns {
+		eachInstr(g, func(in ssa.Instruction) {
+			cc := callCommon(in)
+			if cc == nil || calleeOf(cc).Builtin != "close" {
+				return
+			}
+			for _, o := range origins(cc.Args[0]) {
+				if _, isMk := o.Val.(*ssa.MakeChan); isMk {
+					for _, st := range storesTo(cell) {
+						if st.Val == o.Val {
+							closes++
+						}
+					}
+				}
+			}
+		})
+	}
+	if closes != 1 {
+		return false, ""
+	}
+	if !inLoop(s.in) {
+		return true, "the only close of a local channel that is always made before, outside any loop"
+	}
+	if _, isDefer := s.in.(*ssa.Defer); !isDefer {
+		return false, ""
+	}
+	for _, st := range storesTo(cell) {
+		if st.Block() != s.in.Block() {
+			return false, ""
+		}
+	}
+	isCellLoad := func(v ssa.Value) bool {
+		l, ok := stripConv(v).(*ssa.UnOp)
+		return ok && l.X == ssa.Value(cell)
+	}
+	cs := newCondSpace(f, recOf(eqAtom("unset", isCellLoad, isNil)), "unset")
+	if imp, _ := cs.Implies(cs.Reach(s.in), cs.Atom("unset")); imp && cs.Seen("unset") {
+		return true, "deferred close of a local channel, registered in a block that runs only while the local is still nil and sets it: at most once per call"
 	}
 	return false, ""
 }
